@@ -102,6 +102,7 @@ def st_case(draw):
         return {"sub": "fock", "terms": base["terms"],
                 "targets": base["targets"],
                 "block": draw(st.booleans()),
+                "real": draw(st.integers(0, 2)) != 0,
                 "mseed": draw(st.integers(0, 2**31))}
     base = draw(st_expr_case(CFG))
     rem = base["terms"][0]
@@ -289,7 +290,9 @@ def run_fock(case, r):
     if not terms:
         raise BadCase("zero")
     targets = tuple(sorted(syms(case["targets"]), key=idx_key))
-    e = Expr(Add(*terms), real=True)
+    # (complex orbitals: f^i_p and f^p_i stay distinct objects; the model's
+    #  Fock matrix is symmetric either way)
+    e = Expr(Add(*terms), real=case.get("real", True))
     if e.sympy == 0:
         raise BadCase("zero")
     has_f = any(o["name"] == "f" for t in case["terms"] for o in t["objs"])
@@ -304,6 +307,8 @@ def run_fock(case, r):
         else:
             f = np.diag(en) % P
         m.set_tensor("f", 1, 1, f, kind="anti", bk=1)
+        if not case.get("real", True):
+            m.meta[("f", 1, 1)] = ("any", "any")
         models.append(m)
     if case["block"]:
         r.sample = f"block_diagonalize_fock({e})"
@@ -333,6 +338,8 @@ def run_fock(case, r):
                                         for l in o["u"] + o["l"]):
                 contracted_f = True
     r.nontrivial = has_f and contracted_f
+    if not case.get("real", True):
+        r.cls("fock_complex_orbitals")
     r.cls("fock_block" if case["block"] else "fock_diag",
           "has_f" if has_f else "no_f")
 
